@@ -194,6 +194,35 @@ fn stack_idioms(arch: usize) -> Vec<Vec<u8>> {
     }
 }
 
+/// An ELF image that consists of its file header only (no program or section headers): enough for
+/// the loader to choose the architecture descriptor.
+fn header_only_elf(class64: bool, big: bool, machine: u16) -> Vec<u8> {
+    let mut v = vec![0x7f, b'E', b'L', b'F', if class64 { 2 } else { 1 }, if big { 2 } else { 1 }, 1, 0, 0, 0, 0, 0, 0, 0, 0, 0];
+    let p16 = |v: &mut Vec<u8>, x: u16| if big { v.extend_from_slice(&x.to_be_bytes()) } else { v.extend_from_slice(&x.to_le_bytes()) };
+    let p32 = |v: &mut Vec<u8>, x: u32| if big { v.extend_from_slice(&x.to_be_bytes()) } else { v.extend_from_slice(&x.to_le_bytes()) };
+    let p64 = |v: &mut Vec<u8>, x: u64| if big { v.extend_from_slice(&x.to_be_bytes()) } else { v.extend_from_slice(&x.to_le_bytes()) };
+    p16(&mut v, 2); // ET_EXEC
+    p16(&mut v, machine);
+    p32(&mut v, 1);
+    if class64 {
+        p64(&mut v, 0x10000); // e_entry
+        p64(&mut v, 0); // e_phoff
+        p64(&mut v, 0); // e_shoff
+    } else {
+        p32(&mut v, 0x10000);
+        p32(&mut v, 0);
+        p32(&mut v, 0);
+    }
+    p32(&mut v, 0); // e_flags
+    p16(&mut v, if class64 { 64 } else { 52 }); // e_ehsize
+    p16(&mut v, if class64 { 56 } else { 32 }); // e_phentsize
+    p16(&mut v, 0); // e_phnum
+    p16(&mut v, if class64 { 64 } else { 40 }); // e_shentsize
+    p16(&mut v, 0); // e_shnum
+    p16(&mut v, 0); // e_shstrndx
+    v
+}
+
 #[derive(Default, Clone)]
 struct Universe {
     /// name -> widths seen
@@ -332,6 +361,59 @@ fn check(case: &Case, obs: &mut Obs) -> Result<(), Failure> {
     obs.class(name);
     obs.count("lifted", u.lifted as u64);
     let ab = abi(case.arch);
+
+    // --- a copy of the descriptor is the same descriptor -----------------------------------------
+    {
+        let copy = a.box_clone();
+        let c = copy.as_ref();
+        let cc0 = a.calling_convention();
+        let cc1 = c.calling_convention();
+        let same_cc = cc0.argument_registers() == cc1.argument_registers()
+            && cc0.preserved_registers() == cc1.preserved_registers()
+            && cc0.trashed_registers() == cc1.trashed_registers()
+            && cc0.return_register() == cc1.return_register();
+        let probe = stack_idioms(case.arch).remove(0);
+        let lift = |x: &dyn Architecture| -> String {
+            match guard(|| x.translator().translate_block(&probe, 0x10000, &Options::default())) {
+                Ok(Ok(r)) => r.instructions().iter().map(|(a, g)| format!("{:x}:{}", a, g)).collect::<Vec<_>>().join("|"),
+                Ok(Err(e)) => format!("Err({})", e),
+                Err(_) => "panic".into(),
+            }
+        };
+        if c.name() != a.name() || c.endian() != a.endian() || c.word_size() != a.word_size() || c.stack_pointer() != a.stack_pointer() || !same_cc || lift(c) != lift(a) {
+            bad(
+                format!("C20|{}|box_clone|differs", name),
+                format!("box_clone() of the {} descriptor is another descriptor: name {} endian {:?} word size {} stack pointer {} (original: {} {:?} {} {}), same calling convention: {}", name, c.name(), c.endian(), c.word_size(), c.stack_pointer(), a.name(), a.endian(), a.word_size(), a.stack_pointer(), same_cc),
+            );
+        }
+    }
+
+    // --- the descriptor the ELF loader publishes for this machine / byte order -------------------
+    {
+        let (class64, machine): (bool, u16) = match name {
+            "x86" => (false, 3),
+            "amd64" => (true, 62),
+            "mips" | "mipsel" => (false, 8),
+            "ppc" => (false, 20),
+            _ => (true, 183),
+        };
+        let big = ab.endian == Endian::Big;
+        let bytes = header_only_elf(class64, big, machine);
+        match guard(|| falcon::loader::Elf::new(bytes.clone(), 0)) {
+            Ok(Ok(elf)) => {
+                use falcon::loader::Loader;
+                let la = elf.architecture();
+                if la.name() != name || la.endian() != ab.endian {
+                    bad(
+                        format!("C20|{}|elf-loader|descriptor", name),
+                        format!("an ELF header with e_machine {} and {} byte order is given the descriptor {} / {:?}, expected {} / {:?}", machine, if big { "MSB" } else { "LSB" }, la.name(), la.endian(), name, ab.endian),
+                    );
+                }
+                obs.class("elf-loader-descriptor-compared");
+            }
+            _ => obs.exclude("elf-loader:header-only-image-rejected"),
+        }
+    }
 
     // --- descriptors vs lifter ---------------------------------------------------------------
     if a.name() != name {
